@@ -253,6 +253,40 @@ def _names(e):
     return out
 
 
+# ---- present optionals in the BOXED form built-ins hand out, on BOTH sides of == / != and through every other construct: (setup lines making
+# the optional `bx` (and a second one `by` with an equal payload), payload literal, another payload literal)
+BOXED = {
+    "bool-parse_bool": (['bx = "true".parse_bool()', 'by = "true".parse_bool()'], "true", "false"),
+    "str-map-replace": (['bm = map[str, str] {"k": "v"}', 'bx = bm.replace("k", "v")', 'by = bm.replace("k", "w")'], '"v"', '"w"'),
+    "str-map-remove": (['bm = map[str, str] {"k": "v", "j": "v"}', 'bx = bm.remove("k")', 'by = bm.remove("j")'], '"v"', '"w"'),
+    "int-parse_int": (['bx = "5".parse_int()', 'by = "5".parse_int()'], "5", "6"),
+    "int-index_of": (["bl: [int...] = [4, 5]", "bx = bl.index_of(5)", "by = bl.index_of(5)"], "1", "0"),
+    "float-parse_float": (['bx = "1.5".parse_float()', 'by = "1.5".parse_float()'], "1.5", "2.5"),
+    "byte-parse_byte": (['bx = "0b11".parse_byte()', 'by = "0b11".parse_byte()'], "0b11", "0b1"),
+    "bigint-parse_bigint": (['bx = "7".parse_bigint()', 'by = "7".parse_bigint()'], "B7", "B8"),
+}
+BOXED_USES = {
+    "eq-itself": (["print bx == bx", "print bx != bx"], ["true", "false"]),
+    "eq-other-box": (["print bx == by", "print by != bx"], ["true", "false"]),
+    "eq-plain-both-ways": (["print bx == PV", "print PV == bx", "print bx == OV", "print OV != bx"], ["true", "true", "false", "true"]),
+    "eq-nil": (["print bx == nil", "print nil != bx"], ["false", "true"]),
+    "eq-in-condition": (["if bx == by {", "\tprint 1", "} else {", "\tprint 2", "}"], ["1"]),
+    "eq-through-variables-of-optional-type": (["bz = bx", "print bz == by", "print (get bz) == (get by)"], ["true", "true"]),
+    "or-then-eq": (["print ((bx) or OV) == PV", "print ((bx) or OV) == ((by) or OV)"], ["true", "true"]),
+}
+
+
+def boxed_program(kind, use, host):
+    setup, pv, ov = BOXED[kind]
+    lines, exp = BOXED_USES[use]
+    if kind == "str-map-replace":
+        # after the two replace calls the second box holds "v" as well (replace returns the PREVIOUS value): bx = "v", by = "v"
+        pass
+    body = setup + [l.replace("PV", pv).replace("OV", ov) for l in lines]
+    src = "\n".join(body if host == "module" else ["host = fn() {"] + ["\t" + l for l in body] + ["}", "host()"]) + "\n"
+    return src, exp
+
+
 class C12(Check):
     id = "C12"
     level = "model_checking"
@@ -272,12 +306,29 @@ class C12(Check):
         core = ["eqnil", "neqnil", "get", "or", "unwrap-stmt", "unwrap-if", "unwrap-while", "eq-plain"]
         ls = [("L0-core-constructs-3-positions", list(gen(["same", "block", "loop"], core)))]
         ls.append(("L1-all-constructs-all-positions", gen(POSITIONS, CONSTRUCTS)))
+        ls.append(("Lb-present-optionals-in-the-boxed-form-of-built-ins-on-both-sides-of-==", [("boxed", k, u, h) for k in BOXED for u in BOXED_USES for h in ("module", "fn")]))
         return ls
 
     def describe(self, case):
+        if case[0] == "boxed":
+            return {"boxed optional from": case[1], "use": case[2], "host": case[3]}
         return dict(zip(["payload", "carrier", "present", "construct", "position", "target_declared_outside"], case))
 
+    def run_boxed(self, case):
+        src, exp = boxed_program(case[1], case[2], case[3])
+        res = driver.run_ms(src)
+        if driver.compile_rejected(res):
+            return {"outcome": "boxed-rejected", "nontrivial": False, "tags": ["boxed-rejected"], "show": res.out[-200:]}
+        viol = []
+        if res.exit != 0 or res.lines() != exp:
+            viol.append({"sig": {"kind": "boxed-optional", "from": case[1], "use": case[2], "host": case[3]},
+                         "what": f"{self.describe(case)}: expected {exp}, got exit {res.exit} and {res.lines()} {res.err[-200:]}",
+                         "detail": {"files": {"x.ms": src}, "res": res.brief(), "expected_lines": exp}})
+        return {"outcome": "boxed-ok" + ("-DIFF" if viol else ""), "viol": viol, "nontrivial": True, "tags": ["boxed", "present"]}
+
     def run_case(self, case):
+        if case[0] == "boxed":
+            return self.run_boxed(case)
         ast = build(case)
         if ast is None:
             return {"outcome": "inexpressible", "nontrivial": False}
